@@ -549,7 +549,46 @@ def r8_returned_severity(prog, res, sev):
     res.info["r8_returns_checked"] = nret
 
 
+INT_WIDTH = {"char": 1, "signed char": 1, "unsigned char": 1, "short": 2, "unsigned short": 2, "int": 4, "unsigned int": 4, "long": 8,
+             "unsigned long": 8, "long long": 8, "unsigned long long": 8, "bool": 1}
+
+
+def r9_parsed_number_not_narrowed(prog, res, rule="R9.parsed_number_not_narrowed"):
+    """A number read from the file with `in >> v` is never converted to a narrower integer type: the extraction fails (and the reader
+    reports it) for a value that does not fit v, but a later narrowing - an argument passed to `FindFileId(int)`, an assignment to an
+    `int` - silently takes the value modulo 2^32, so a reference `#4294967312` resolves to instance #16 and a dangling reference is
+    accepted.  Every integral conversion whose operand is such a variable keeps its width."""
+    n = 0
+    for f in prog.all_functions():
+        if f.component == "test":
+            continue
+        rd = {}
+        for c in f.calls():
+            if (c.get("opcall") == ">>" or (c.get("fn") or "").endswith("operator>>")) and len(c.get("ch") or []) > 1:
+                t = strip(c["ch"][1])
+                if t is not None and t["k"] == "Ref" and INT_WIDTH.get(f.ty(t), 0) >= 4:
+                    rd[t["d"]] = t
+        for d, t in sorted(rd.items()):
+            n += 1
+            bad = None
+            for x in f.walk():
+                if x["k"] == "Cast" and x.get("ck") == "IntegralCast" and x.get("ch"):
+                    o = strip(x["ch"][0])
+                    while o is not None and o["k"] == "Cast" and o.get("ck") in ("LValueToRValue", "NoOp") and o.get("ch"):
+                        o = strip(o["ch"][0])
+                    if o is not None and o["k"] == "Ref" and o.get("d") == d:
+                        a, b = INT_WIDTH.get(f.ty(o)), INT_WIDTH.get(f.ty(x))
+                        if a and b and b < a and bad is None:
+                            bad = (x, f.ty(o), f.ty(x))
+            res.add(rule, "R9|%s|%s|%s" % (f.relfile(), f.name, t["n"]), f.where(bad[0]) if bad else f.where(t), bad is None,
+                    "`%s` (%s, read with >>) is never converted to a narrower type" % (t["n"], f.ty(t)) if bad is None else
+                    "`%s` is read from the file as %s and converted to %s here: a number beyond the narrower range is taken modulo 2^%d instead of "
+                    "being refused - a dangling reference #4294967312 resolves to instance #16" % (t["n"], bad[1], bad[2], 8 * INT_WIDTH[bad[2]]))
+    res.floor(rule, "integers read from the stream with >>", n, 5)
+
+
 def run(prog, res, sev):
+    r9_parsed_number_not_narrowed(prog, res)
     r8_returned_severity(prog, res, sev)
     r6_stream_errors(prog, res, sev)
     r7_every_iteration_accounts(prog, res, sev)
